@@ -76,7 +76,7 @@ r is Ok ==> r->Ok_0.val as nat == bucket(old(self)@.bytes, idx as int)
 @end
 
 @fn src/filedb/inner/htx.rs | impl VarFile | write_key_piece_offset
-@serves C04 C05
+@serves C04 C05 C18
 @requires
 htx_wf(old(self)@.bytes, bucket_size as int), idx < bucket_size
 @ensures
@@ -181,6 +181,7 @@ buckets_size - idx
 
 @fn src/filedb/inner/htx.rs | impl HtxFile | read_key_piece_offset
 @opts mutself
+@serves C12 C01
 @requires
 old(self).wf()
 @ensures
@@ -190,7 +191,7 @@ r is Ok ==> r->Ok_0.val as nat == bucket(old(self).bytes(), (hash.val % old(self
 
 @fn src/filedb/inner/htx.rs | impl HtxFile | write_key_piece_offset
 @opts mutself
-@serves C04 C05
+@serves C04 C05 C12 C18
 @requires
 old(self).wf()
 @ensures
